@@ -457,9 +457,16 @@ func (g *GoBackNConn) sendPacketsForever() error {
 			default:
 			}
 
-			// Start the pong timer.
-			g.pongTicker.Reset()
-			g.pongTicker.Resume()
+			// Start the pong timer, unless it is already running
+			// for an earlier ping that has not been answered: it
+			// measures the time since the first unanswered ping.
+			// Restarting it on every ping would postpone the
+			// timeout for ever when the ping interval is shorter
+			// than the pong timeout.
+			if !g.pongTicker.IsActive() {
+				g.pongTicker.Reset()
+				g.pongTicker.Resume()
+			}
 
 			// Also reset the ping timer.
 			g.pingTicker.Reset()
@@ -535,8 +542,10 @@ func (g *GoBackNConn) sendPacketsForever() error {
 				// flight as the probe: resending them makes a
 				// live peer answer with an ACK or a NACK, and
 				// anything we receive stops the pong timer.
-				g.pongTicker.Reset()
-				g.pongTicker.Resume()
+				if !g.pongTicker.IsActive() {
+					g.pongTicker.Reset()
+					g.pongTicker.Resume()
+				}
 				g.pingTicker.Reset()
 
 				if err := resendQueue(); err != nil {
